@@ -194,7 +194,7 @@ def save_cif(
     if isinstance(content, Block):
         content = (content,)
     with open_or_pass(fname, "w") as f:
-        _write_file_heading(f, comment=comment)
+        _write_file_heading(f, comment=_encode_non_ascii(comment))
         _write_multi(f, content)
 
 
